@@ -95,6 +95,7 @@ def dotted(n):
 
 class Fn:
     fresh_funcs = set()          # functions (module-local name and `module.name`) all of whose returned values are fresh
+    ret_summary = {}             # function -> origins of its returned values (Param:* = may alias an argument; Global:* ...)
 
     def __init__(self, mod, fn, module_names, imports):
         self.mod, self.fn, self.module_names, self.imports = mod, fn, module_names, imports
@@ -126,7 +127,7 @@ class Fn:
         if isinstance(e, (ast.ListComp, ast.SetComp, ast.GeneratorExp, ast.DictComp)):
             cenv = dict((k, set(v)) for k, v in env.items())
             for g in e.generators:
-                self.bind(g.target, element_origins(self.org(g.iter, cenv)), cenv)
+                self.bind_iter(g.target, g.iter, cenv)
             body = e.value if isinstance(e, ast.DictComp) else e.elt
             return {FRESH} | elems_of(self.org(body, cenv))
         if isinstance(e, (ast.Constant, ast.BinOp, ast.UnaryOp, ast.Compare, ast.JoinedStr, ast.Lambda, ast.FormattedValue)):
@@ -169,6 +170,19 @@ class Fn:
                 return out
             if d in ALIAS_CALLS:
                 return self.org(e.args[0], env) if e.args else {FRESH}
+            if d in self.ret_summary:
+                # a library function with a known summary: its result may alias its arguments only if it returns (an alias of)
+                # a parameter, and it may be (an alias of) whatever module-level object it returns
+                out = set()
+                for tag in self.ret_summary[d]:
+                    base = tag[len('Elems:'):] if tag.startswith('Elems:') else tag
+                    if base.startswith('Param:'):
+                        for a in args:
+                            ao = self.org(a, env)
+                            out |= (elems_of(ao) if tag.startswith('Elems:') else ao)
+                    else:
+                        out.add(tag)
+                return out or {FRESH}
             if isinstance(e.func, ast.Attribute) and not (d and d.split('.')[0] in self.imports and d.split('.')[0] not in env):
                 m = e.func.attr
                 if m in FRESH_METHODS:
@@ -210,6 +224,22 @@ class Fn:
         b = self.base_name(container)
         if isinstance(b, ast.Name) and b.id in env:
             env[b.id] = set(env[b.id]) | elems_of(org)
+
+    def bind_iter(self, target, it, env):
+        """loop target := an item of `it`; zip(...) / enumerate(...) items are unpacked component-wise"""
+        if isinstance(it, ast.Call) and isinstance(it.func, ast.Name) and isinstance(target, (ast.Tuple, ast.List)) and not it.keywords:
+            if it.func.id == 'zip' and len(it.args) == len(target.elts) and not any(isinstance(a, ast.Starred) for a in it.args):
+                for t, a in zip(target.elts, it.args):
+                    self.bind_iter(t, a, env) if isinstance(t, (ast.Tuple, ast.List)) else self.bind_acc(t, element_origins(self.org(a, env)), env)
+                return
+            if it.func.id == 'enumerate' and len(target.elts) == 2 and it.args:
+                self.bind_acc(target.elts[0], {FRESH}, env)
+                if isinstance(target.elts[1], (ast.Tuple, ast.List)):
+                    self.bind_iter(target.elts[1], it.args[0], env)
+                else:
+                    self.bind_acc(target.elts[1], element_origins(self.org(it.args[0], env)), env)
+                return
+        self.bind_acc(target, element_origins(self.org(it, env)), env)
 
     def bind_acc(self, target, org, env):
         if isinstance(target, ast.Name):
@@ -331,7 +361,7 @@ class Fn:
             cur = dict((k, set(v)) for k, v in env.items())
             saved = list(self.sites), dict(self.counter)
             for _ in range(12):                                # iterate the abstract state to a fixpoint (monotone: bindings accumulate)
-                self.bind_acc(s.target, element_origins(self.org(s.iter, cur)), cur)
+                self.bind_iter(s.target, s.iter, cur)
                 self.sites, self.counter = list(saved[0]), dict(saved[1])
                 after = self.block(s.body, dict((k, set(v)) for k, v in cur.items()))
                 new = self.merge(cur, after)
@@ -487,17 +517,23 @@ def generate():
                     extra.append((name + '.<locals>.' + k.name, k))
         mods_funcs.append((m, funcs, extra, module_names, imports))
     # pass 1..3: which functions return only fresh values (fixpoint from the empty set: monotone, conservative)
-    for _ in range(4):
+    Fn.ret_summary = {}
+    for _ in range(6):
         new_fresh = set()
+        new_sum = {}
         for m, funcs, extra, module_names, imports in mods_funcs:
             for name, fn in funcs:
                 f = analyse(m, name, fn, module_names, imports, {})
                 if f.returns and f.returns <= {FRESH}:
                     new_fresh.add(name)
                     new_fresh.add(m + '.' + name)
-        if new_fresh == Fn.fresh_funcs:
+                elif f.returns:
+                    new_sum[m + '.' + name] = set(f.returns)
+                    new_sum.setdefault(name, set()).update(f.returns)     # same bare name in several modules: union (conservative)
+        if new_fresh == Fn.fresh_funcs and new_sum == Fn.ret_summary:
             break
         Fn.fresh_funcs = new_fresh
+        Fn.ret_summary = new_sum
     for m, funcs, extra, module_names, imports in mods_funcs:
         final_env = {}
         for name, fn in funcs:
